@@ -28,3 +28,29 @@ package util
 //@ func (Hasher).Hash
 //@   pure
 //@   ensures r0 != nil
+
+// ---- ShardedMap, as seen by its clients (trusted contracts; A6: one call is one
+// atomic step).  Reads use the abstract map view mhas/mval; the view is not
+// updated by Set/Remove (nothing verified so far reads it after an update).
+
+//@ func (*ShardedMap).Value
+//@   trusted
+//@   pure
+//@   ensures found == mhas(l, k)
+//@   ensures found ==> v == mval(l, k, v)
+
+//@ func (*ShardedMap).Traverse
+//@   trusted
+//@   loops f(tk, tv) -> keep
+//@   where mhas(l, tk) && tv == mval(l, tk, tv)
+//@   until !keep
+
+//@ func (*ShardedMap).RemoveValue
+//@   trusted
+
+//@ func (*ShardedMap).Set
+//@   trusted
+//@   calls f(sv, sfound) -> nv, serr
+//@   where sfound == mhas(l, k)
+//@   where sfound ==> sv == mval(l, k, sv)
+//@   ensures serr == nil ==> v == nv
